@@ -218,7 +218,7 @@ func c08Hammer(c *Ctx, T time.Duration) {
 			shared[b.id] = fmt.Sprintf("local port %d was also in use by the concurrent request id %d to the same controller", b.port, a.id)
 		}
 	}
-	c.Res.Count("hammer:requests-sharing-a-local-port-with-a-concurrent-request", int64(len(shared)))
+	c.Res.Count("hammer:requests-whose-local-port-was-in-use-by-another-request-within-the-same-span(diagnostic; includes immediate reuse after close)", int64(len(shared)))
 
 	for _, h := range all {
 		c.Res.Eval(1)
